@@ -25,11 +25,12 @@ Proof. exact EngineFacts.ready_iff. Qed.
 Print Assumptions ready_means_required_inputs_valid.
 
 (* Ticks reach a node only through its ACTIVE inputs: when a producer writes, the only
-   nodes whose graph slot changes are those with an active input bound to it. *)
+   nodes whose graph slot changes are those with an input bound to it that is active at
+   that moment (declared active and not made passive since, or made active at run time). *)
 Theorem ticks_wake_only_through_active_inputs : forall cfgs src g k,
   slot_at k (notify_from cfgs 0 src g) <> slot_at k g ->
   exists m c, nth_error cfgs m = Some c /\ k = (0 + m)%nat /\
-              existsb (fun s => (i_src s =? src)%nat && i_active s) (c_ins c) = true.
+              exists s a, In (s, a) (combine (c_ins c) (n_act (node_at k g))) /\ i_src s = src /\ a = true.
 Proof. intros cfgs. exact (EngineFacts.notify_only_active cfgs 0%nat). Qed.
 Print Assumptions ticks_wake_only_through_active_inputs.
 
